@@ -472,7 +472,42 @@ def r5_primitive_parametrisations(repo: Repo, rep):
             break
 
 
+def r8_positive_proposals(repo: Repo, rep):
+    R = rep.rule("R-C01-8", "boundary rejection sampling proposes at least one point on each operand's boundary per round (counts of the form int(..) + 1 / ceil(..) / max(1, ..))", floor=1,
+                 why="with 0 proposals on the only operand that carries the result's boundary the rejection loop never finds a point")
+    h = repo.module("problem.domains.domainoperations.sampler_helper")
+    fi = h.functions.get("_compute_boundary_ratio")
+    if fi is None:
+        rep.undecided(R, h.relpath, "_compute_boundary_ratio", "proposal-count helper", "vanished: idiom not recognised")
+        return
+    rep.saw(fi)
+
+    def positive(e):
+        if isinstance(e, ast.BinOp) and isinstance(e.op, ast.Add):
+            for a, b in ((e.left, e.right), (e.right, e.left)):
+                if isinstance(b, ast.Constant) and isinstance(b.value, int) and b.value >= 1 and isinstance(a, ast.Call) and attr_chain(a.func) in ("int", "math.floor", "torch.floor", "round"):
+                    return True
+        if isinstance(e, ast.Call) and attr_chain(e.func) == "max" and any(isinstance(a, ast.Constant) and isinstance(a.value, int) and a.value >= 1 for a in e.args):
+            return True
+        if isinstance(e, ast.Call) and attr_chain(e.func) in ("int", "math.ceil") and e.args:
+            inner = e.args[0]
+            if attr_chain(e.func) == "math.ceil":
+                return False  # ceil of a ratio that can be 0 is 0; only with a positive numerator, which is not told here
+            return positive(inner)
+        return False
+    for p in paths(fi.node):
+        if p.ret is RAISE or p.ret is None:
+            continue
+        elts = p.ret.elts if isinstance(p.ret, (ast.List, ast.Tuple)) else None
+        if not elts:
+            rep.undecided(R, fi.site(p.ret_node), fi.fq, "returns the two proposal counts", dump(p.ret)[:80])
+            continue
+        bad = [dump(x)[:70] for x in elts if not positive(x)]
+        rep.check(R, not bad, fi.site(p.ret_node), fi.fq, "each count is at least 1 for every n and every ratio of boundary lengths", f"can be 0: {bad}", f"count may be 0: {bad}")
+
+
 def run(repo: Repo, rep):
+    r8_positive_proposals(repo, rep)
     r1_facts(repo, rep)
     r5_primitive_parametrisations(repo, rep)
     r2_filtering(repo, rep)
